@@ -1,4 +1,4 @@
 From Coq Require Extraction ExtrOcamlBasic.
-From NQ Require Import Pop.Pop3.
+From NQ Require Import Pop.Pop3 Pop.Popup.
 Extraction Language OCaml.
-Extraction "extracted_C19.ml" session init_state pop3_blast msgno split_command.
+Extraction "extracted_C19.ml" session init_state pop3_blast msgno split_command popup_session ust0 after_auth.
